@@ -101,16 +101,16 @@ UNIT = dict(
          must_fire={'self_call:acquire_lock': 1, 'self_call:release_lock': 1, 'self_call:store_data': 1, 'subst:by_ref': 1, 'member:_data': 1}),
     dict(id='update', file=F, sig=r'void ' + CLS + r'update\(Func func\)',
          c_sig='static void sl_update(struct seqlock* self, int func)',
-         members=['_data'], self_calls={'acquire_lock': 'sl_acquire_lock', 'release_lock': 'sl_release_lock', 'store_data': 'SL_STORE_DATA', 'read_data': 'SL_READ_DATA'},
+         members=['_data'], self_calls={'acquire_lock': 'sl_acquire_lock', 'release_lock': 'sl_release_lock', 'store_data': 'SL_STORE_DATA', 'read_data': 'SL_READ_DATA', 'load': 'sl_load'},
          subst=[(r'\b(store_data|read_data)\(\s*(\w+)\s*,\s*([^;]+)\);', r'\1(&\2, &\3);', 'by_ref'), (r'\bfunc\((\w+)\);', r'XV_FUNCTOR(func, &\1);', 'functor')],
-         must_fire={'self_call:acquire_lock': 1, 'self_call:release_lock': 1, 'self_call:store_data': 1, 'self_call:read_data': 1, 'subst:by_ref': 2,
-                    'subst:functor': 1, 'member:_data': 2}),
+         must_fire={'self_call:acquire_lock': 1, 'self_call:release_lock': 1, 'self_call:store_data': 1, 'subst:functor': 1}),
   ],
   runs=RUNS,
   obligations={
     'sl.copy.all_bytes': dict(deciding=True, text='store_data makes every one of the sizeof(T) bytes of the slot equal to the source and touches nothing else (no other slot, not _seq); read_data returns every one of the sizeof(T) bytes of the slot, reading each once, and writes nothing shared'),
     'sl.copy.in_bounds': dict(deciding=True, text='every word access of the copy loops lies inside the storage_t of the slot that was passed in'),
     'sl.copy.aligned': dict(deciding=True, text='every atomic word access of the copy loops is aligned for std::atomic<copy_t> (given the seqlock object is)'),
+    'sl.update.read_under_lock': dict(deciding=True, text='update takes the snapshot that feeds the functor while holding the lock (after its CAS, before its unlocking store), from slot (seq>>1) mod slots of the sequence value acquire_lock returned, and stores to the next slot under that same value (no lost update between two writers)'),
     'sl.lock.parity': dict(deciding=True, text='acquire_lock turns an even _seq v into v+1 and returns v+1; release_lock(v+1) makes it v+2; a write operation advances _seq by exactly 2 and leaves it even'),
     'sl.lock.acquire': dict(deciding=True, text='[INT] acquire_lock returns only after its own CAS moved _seq from an even value e to e+1, returns e+1, and writes nothing else'),
     'sl.writer.guarantee': dict(deciding=True, text='GUARANTEE of store/update = the readers\' rely: _seq is written only even->+1 by a CAS and odd->+1 by the lock holder; data words are written only by the lock holder while _seq is the odd value 2j+1 it installed, and only inside slot (j+1) mod slots'),
